@@ -210,7 +210,7 @@ def make(interp):
             return SymSet(membership(src))      # raises Unsupported when the array has no defining membership predicate
         xs = list(interp.iterate(it))
         _hashable_check(xs)
-        return set(xs)
+        return core.TSet(xs)
 
     @model
     def b_frozenset(it=()):
